@@ -279,5 +279,141 @@ def notcmp(src):
     return ast.unparse(t) + "\n"
 
 
-TRANSFORMS = {"noelse": noelse, "notcmp": notcmp, "alpha": alpha, "reprint": reprint, "rettemp": rettemp, "ifswap": ifswap,
+class _AddLog(ast.NodeTransformer):
+    """debug() call at the top of every function that lives in a module
+    defining/ importing `debug` (a logging-only change)."""
+
+    def visit_FunctionDef(self, n):
+        self.generic_visit(n)
+        if n.name.startswith("__") or n.name == "debug":
+            return n
+        i = 1 if (n.body and isinstance(n.body[0], ast.Expr)
+                  and isinstance(getattr(n.body[0], "value", None), ast.Constant)
+                  and isinstance(n.body[0].value.value, str)) else 0
+        call = ast.Expr(ast.Call(func=ast.Name("debug", ast.Load()),
+                                 args=[ast.Constant(f"enter {n.name}")], keywords=[]))
+        n.body.insert(i, call)
+        return n
+
+
+def addlog(src):
+    if "def debug(" not in src and "debug," not in src and "import debug" not in src:
+        return src
+    t = ast.parse(src)
+    _AddLog().visit(t)
+    ast.fix_missing_locations(t)
+    return ast.unparse(t) + "\n"
+
+
+class _Msg(ast.NodeTransformer):
+    """Reword every message: string constants that are assigned to `msg`, or
+    passed to an exception constructor / warnings.warn / debug."""
+
+    def _reword(self, e):
+        for x in ast.walk(e):
+            if isinstance(x, ast.Constant) and isinstance(x.value, str) and " " in x.value:
+                x.value = x.value + " (reworded)"
+
+    def visit_Assign(self, n):
+        if len(n.targets) == 1 and isinstance(n.targets[0], ast.Name) and n.targets[0].id == "msg":
+            self._reword(n.value)
+        return n
+
+    def visit_Raise(self, n):
+        if isinstance(n.exc, ast.Call):
+            for a in n.exc.args:
+                self._reword(a)
+        return n
+
+
+def msgchange(src):
+    t = ast.parse(src)
+    _Msg().visit(t)
+    ast.fix_missing_locations(t)
+    return ast.unparse(t) + "\n"
+
+
+class _NoDoc(ast.NodeTransformer):
+    def _strip(self, n):
+        self.generic_visit(n)
+        if n.body and isinstance(n.body[0], ast.Expr) and isinstance(n.body[0].value, ast.Constant) \
+                and isinstance(n.body[0].value.value, str) and len(n.body) > 1:
+            n.body = n.body[1:]
+        return n
+    visit_FunctionDef = visit_ClassDef = _strip
+
+
+def nodoc(src):
+    t = ast.parse(src)
+    _NoDoc().visit(t)
+    ast.fix_missing_locations(t)
+    return ast.unparse(t) + "\n"
+
+
+class _Annotate(ast.NodeTransformer):
+    def visit_FunctionDef(self, n):
+        self.generic_visit(n)
+        for a in n.args.args + n.args.kwonlyargs:
+            if a.arg not in ("self", "cls") and a.annotation is None:
+                a.annotation = ast.Constant("object")
+        return n
+
+
+def annotate(src):
+    t = ast.parse(src)
+    _Annotate().visit(t)
+    ast.fix_missing_locations(t)
+    return ast.unparse(t) + "\n"
+
+
+class _SplitCall(ast.NodeTransformer):
+    """y = f(g(x), ...) -> t = g(x); y = f(t, ...)  when f is a plain name or
+    attribute chain and g(x) is its FIRST positional argument (evaluation order
+    is unchanged).  Applied to Assign / Return / Expr statements."""
+
+    def __init__(self):
+        self.k = 0
+
+    def _block(self, stmts):
+        out = []
+        for st in stmts:
+            st = self.visit(st)
+            v = getattr(st, "value", None) if isinstance(st, (ast.Assign, ast.Return, ast.Expr)) else None
+            if isinstance(v, ast.Call) and v.args and isinstance(v.args[0], ast.Call) \
+                    and not any(isinstance(x, (ast.Yield, ast.YieldFrom, ast.Await, ast.NamedExpr,
+                                               ast.Starred))
+                                for x in ast.walk(v)) and _purefunc(v.func):
+                self.k += 1
+                name = f"arg_tmp{self.k}"
+                out.append(ast.Assign(targets=[ast.Name(name, ast.Store())], value=v.args[0],
+                                      lineno=st.lineno))
+                v.args[0] = ast.Name(name, ast.Load())
+            out.append(st)
+        return out
+
+    def generic_visit(self, node):
+        for f in ("body", "orelse", "finalbody"):
+            b = getattr(node, f, None)
+            if isinstance(b, list) and b and isinstance(b[0], ast.stmt):
+                setattr(node, f, self._block(b))
+        for h in getattr(node, "handlers", []) or []:
+            h.body = self._block(h.body)
+        return node
+
+
+def _purefunc(f):
+    while isinstance(f, ast.Attribute):
+        f = f.value
+    return isinstance(f, ast.Name)
+
+
+def splitcall(src):
+    t = ast.parse(src)
+    _SplitCall().visit(t)
+    ast.fix_missing_locations(t)
+    return ast.unparse(t) + "\n"
+
+
+TRANSFORMS = {"splitcall": splitcall, "addlog": addlog, "msgchange": msgchange, "nodoc": nodoc, "annotate": annotate,
+              "noelse": noelse, "notcmp": notcmp, "alpha": alpha, "reprint": reprint, "rettemp": rettemp, "ifswap": ifswap,
               "cmpflip": cmpflip}
